@@ -9,6 +9,7 @@ executions, in particular those still running after an acceptance.
 REAL: SIGINT to the process group at the k-th command invocation.
 DESIGN 3/C06.
 """
+import errno
 import os
 import signal
 import subprocess
@@ -30,6 +31,7 @@ class FileOps:
         self.interrupt_at = interrupt_at
         self.observations = []  # (point no, op, on-disk bytes or None)
         self.fired = None
+        self.xdev = 0
 
     def concerns(self, path):
         try:
@@ -111,8 +113,21 @@ def install_file_proxy(ops):
         return builtins.open(path, mode, *a, **k)
 
     nodeio.open = proxy_open
-    if hasattr(nodeio, 'os'):
-        real_os = os
+    real_os = os
+    tmproot = os.path.join(ops.dir, 'tmp') + os.sep
+
+    def xdev(a, b):
+        """The temporary directory is modelled as a different file system
+        than the output directory: a rename across the two fails."""
+        try:
+            a, b = os.path.abspath(a), os.path.abspath(b)
+        except TypeError:
+            return
+        if a.startswith(tmproot) != b.startswith(tmproot):
+            ops.xdev += 1
+            raise OSError(errno.EXDEV, 'Invalid cross-device link', a)
+
+    if True:
 
         class OsProxy:
 
@@ -120,6 +135,7 @@ def install_file_proxy(ops):
                 return getattr(real_os, name)
 
             def replace(self, a, b, *x, **k):
+                xdev(a, b)
                 if ops.concerns(b) or ops.concerns(a):
                     ops.point('before-replace')
                     r = real_os.replace(a, b, *x, **k)
@@ -128,6 +144,7 @@ def install_file_proxy(ops):
                 return real_os.replace(a, b, *x, **k)
 
             def rename(self, a, b, *x, **k):
+                xdev(a, b)
                 if ops.concerns(b) or ops.concerns(a):
                     ops.point('before-rename')
                     r = real_os.rename(a, b, *x, **k)
@@ -138,15 +155,25 @@ def install_file_proxy(ops):
             def unlink(self, p, *x, **k):
                 return real_os.unlink(p, *x, **k)
 
-        nodeio.os = OsProxy()
+        if hasattr(nodeio, 'os'):
+            nodeio.os = OsProxy()
+        # library helpers the write path may go through (shutil.move falls
+        # back to truncate + copy when rename fails with EXDEV)
+        import shutil
+        shutil.os = OsProxy()
+        shutil.open = proxy_open
 
 
 def uninstall_file_proxy():
     from ddsmt import nodeio
+    import shutil
     if 'open' in nodeio.__dict__:
         del nodeio.__dict__['open']
     if hasattr(nodeio, 'os'):
         nodeio.os = os
+    shutil.os = os
+    if 'open' in shutil.__dict__:
+        del shutil.__dict__['open']
 
 
 def toks(data):
